@@ -98,4 +98,10 @@ PROPS = {
         'assumptions': COMMON_ASSUMPTIONS + ["keys are told apart by their index hash (all conflict hashes 0): with colliding keys the statement is false (known finding D9, machine-checked witness C06_collision_refuted)", "no remove reported an error (a Delete lost to a full insert buffer): the property's own exclusion"],
         'partial': "",
     },
+    'C20': {
+        'suites': [('cachecfg', 400, 4000, ''), ('sketch', 150, 1500, ''), ('bloom', 150, 1500, ''), ('keys', 1, 1, '')],
+        'rule': CACHE_RULE % "Cache and AsyncCache" + "configurations drawn from num_counters {1..70, 127, 129, 1000}, max_cost {-5, 1, 2, 57, 100, 300}, insert buffer {1, 2, 3, 16}, buffer_items {0, 1, 2, 3, 64}, metrics on/off, ignore_internal_cost on/off, both flavours, followed by inserts (with TTL), lookups, removes, ticks, evictions, clear, close; any panic in a client call or in a worker is caught by the harness (catch_unwind in every actor) and reported; a worker that died shows up as a state divergence or a stuck client; plus the builder's validation (keys suite: zero num_counters / max_cost / buffer size in every combination, on both builders) and sketch/doorkeeper construction for widths 0..70, 127, 129, 1000",
+        'assumptions': COMMON_ASSUMPTIONS + ["the clock is monotone (SystemTime going backwards makes Time::elapsed panic: outside the property's quantifier)", "key hashes are u64", "doorkeeper sizing: probes * 2^ceil(log2(max(entries,512))) <= 2^64, i.e. the filter fits in memory"],
+        'partial': "'any positive cleanup interval' and thread/timer start-up are runtime behaviour: the ticker is a label in the model and a controllable channel in the harness; memory exhaustion for huge num_counters is outside the model",
+    },
 }
